@@ -153,6 +153,8 @@ fn threads(a: &[String]) {
     if a.get(5).map(|s| s == "grant").unwrap_or(false) {
         cpufeatures::sim::set_miri_grant(true);
     }
+    // optional restriction of build variants ("-" or absent: all)
+    let only_variants: Vec<String> = a.get(6).filter(|s| s.as_str() != "-").map(|s| s.split(',').map(|x| x.to_string()).collect()).unwrap_or_default();
     let reg: Arc<Registry> = Arc::new(sim::registry::build());
     install_quiet_panic_hook();
     let mut rng = Prng::new(seed);
@@ -176,20 +178,31 @@ fn threads(a: &[String]) {
     // variants to exercise: prefer those that go through detection / SIMD, then one other
     let pick_variant = |rng: &mut Prng, fam: usize| -> usize {
         let f = &reg.families[fam];
-        let det: Vec<usize> = (0..f.variants.len()).filter(|&i| reg.types[f.variants[i].both].detect).collect();
-        if !det.is_empty() && rng.chance(3, 4) { *rng.pick(&det) } else { rng.below(f.variants.len() as u64) as usize }
+        let allowed: Vec<usize> = (0..f.variants.len())
+            .filter(|&i| only_variants.is_empty() || only_variants.iter().any(|v| v == f.variants[i].variant))
+            .collect();
+        let allowed = if allowed.is_empty() { (0..f.variants.len()).collect() } else { allowed };
+        let det: Vec<usize> = allowed.iter().copied().filter(|&i| reg.types[f.variants[i].both].detect).collect();
+        if !det.is_empty() && rng.chance(3, 4) { *rng.pick(&det) } else { *rng.pick(&allowed) }
     };
 
     // shared instances
     let mut shared: Vec<SharedInst> = Vec::new();
     let mut backing = sim::mem::Slots::new();
-    let n_shared = 2 + rng.below(3) as usize;
-    for _ in 0..n_shared {
-        let fam = *rng.pick(&fam_idx);
+    // systematically: the first listed family gets a combined instance (and, if it has halves, one
+    // of them); then a few random ones
+    let mut wanted: Vec<(usize, Option<Role>)> = vec![(fam_idx[0], Some(Role::Both))];
+    if reg.families[fam_idx[0]].split {
+        wanted.push((fam_idx[0], Some(*rng.pick(&[Role::Enc, Role::Dec]))));
+    }
+    for _ in 0..(1 + rng.below(2)) {
+        wanted.push((*rng.pick(&fam_idx), None));
+    }
+    for (fam, want_role) in wanted {
         let f = &reg.families[fam];
         let vi = pick_variant(&mut rng, fam);
         let vs = &f.variants[vi];
-        let role = if f.split { *rng.pick(&[Role::Both, Role::Enc, Role::Enc, Role::Dec]) } else { Role::Both };
+        let role = if f.split { want_role.unwrap_or_else(|| *rng.pick(&[Role::Both, Role::Both, Role::Enc, Role::Dec])) } else { Role::Both };
         let ty = vs.ty(role).unwrap();
         let t = &reg.types[ty];
         if firstuse && t.detect {
@@ -209,10 +222,31 @@ fn threads(a: &[String]) {
         shared.push(SharedInst { ty, ptr: p, key, fam });
     }
 
-    // per-thread programs
+    // per-thread programs. Each starts with a burst: every thread makes its first call on every
+    // shared instance in the same direction, so that first uses of an instance overlap
+    let burst_dirs: Vec<Vec<Dir>> = shared
+        .iter()
+        .map(|s| match reg.types[s.ty].role {
+            Role::Enc => vec![Dir::Enc],
+            Role::Dec => vec![Dir::Dec],
+            Role::Both => {
+                if rng.chance(1, 2) { vec![Dir::Dec, Dir::Enc] } else { vec![Dir::Enc, Dir::Dec] }
+            }
+        })
+        .collect();
     let mut programs: Vec<Vec<TOp>> = Vec::new();
     for _ in 0..nt {
         let mut prog = Vec::new();
+        for (i, s) in shared.iter().enumerate() {
+            let t = &reg.types[s.ty];
+            for &d in &burst_dirs[i] {
+                let shape = *rng.pick(&SHAPES);
+                let n = if shape.single() { 1 } else { rng.range(1, 3) as usize };
+                let data = rng.bytes(n * t.block);
+                let e = expect(s.fam, &s.key, d, &data);
+                prog.push(TOp::Shared { inst: i, dir: d, shape, data, expect: e });
+            }
+        }
         for _ in 0..nops {
             let kind = if shared.is_empty() { 0 } else { rng.weighted(&[if firstuse { 6 } else { 3 }, 5, 2, 2]) };
             let op = match kind {
